@@ -201,4 +201,44 @@ def copyStepUntyped (dst : Dest) (roots : List Nat) (reach : List CTree) : Dest 
 def destComplete (dst : Dest) (roots : List Nat) (reach : List CTree) : Bool :=
   roots.all dst.trees.contains && reach.all (fun t => t.kids.all dst.trees.contains && t.data.all dst.data.contains)
 
+/-! #### the walk: which trees the streamer yields
+
+`copy` starts `TreeStreamerOnce` from `snap_trees` = the root trees of ALL snapshots it was given — whether or not the
+destination already has a root tree — and collects the needed blobs from every tree the walk yields; only the
+NEEDED sets are filtered by the destination index.  The source is a term here (a snapshot's tree with its sub-trees;
+shared sub-trees simply occur more than once — the streamer yields each tree once, which makes no difference to the
+membership questions `copyStep` asks). -/
+
+inductive STree where
+  | node (id : Nat) (data : List Nat) (kids : List STree)
+
+def STree.id : STree → Nat
+  | .node i _ _ => i
+
+mutual
+/-- every tree at or below `s`, as the streamer yields it: id, ids of the sub-trees, chunk ids of the files -/
+def STree.flatten : STree → List CTree
+  | .node i d ks => ⟨i, ks.map STree.id, d⟩ :: STree.flattenL ks
+def STree.flattenL : List STree → List CTree
+  | [] => []
+  | k :: ks => k.flatten ++ STree.flattenL ks
+end
+
+mutual
+/-- the snapshot tree can be read completely from the destination: the tree blob, every chunk, every sub-tree -/
+def STree.present (d : Dest) : STree → Bool
+  | .node i dat ks => d.trees.contains i && dat.all d.data.contains && STree.presentL d ks
+def STree.presentL (d : Dest) : List STree → Bool
+  | [] => true
+  | k :: ks => k.present d && STree.presentL d ks
+end
+
+/-- `copy(snapshots)`: the walk starts from ALL snapshot roots. -/
+def copyRun (dst : Dest) (snaps : List STree) : Dest :=
+  copyStep dst (snaps.map STree.id) (STree.flattenL snaps)
+
+/-- the tempting shortcut (seeded change C12-3): walk only the snapshots whose root tree is missing in the destination -/
+def copyRunMissingRootsOnly (dst : Dest) (snaps : List STree) : Dest :=
+  copyStep dst (snaps.map STree.id) (STree.flattenL (snaps.filter (fun s => !dst.trees.contains s.id)))
+
 end Rustic.TreeOps
